@@ -163,6 +163,10 @@ class Session:
         gen = self.app.app.clck_gen
         if bool(gen.running) != self.model.clock_running:
             raise Violation(self.sig("clock", "generator-state"), "clock generator running=%r, expected %r" % (gen.running, self.model.clock_running))
+        live = self.app.live_clock_workers()
+        if live != (1 if self.model.clock_running else 0):
+            raise Violation(self.sig("clock", "worker-threads"), "%d clock worker thread(s) started and not joined, generator should %s" % (
+                live, "run" if self.model.clock_running else "be stopped"))
 
     def clock_ind(self, k):
         """let the generator emit the tick for frame k * ind_period (an indication frame)"""
